@@ -684,6 +684,9 @@ impl Server {
                 }
             }
             
+            // Requests that were waiting behind a blocking command come first
+            frames_to_process.append(&mut conn.deferred_frames);
+            
             // Read data from connection
             match conn.read() {
                 Ok(true) => {
@@ -762,7 +765,8 @@ impl Server {
         // Second phase: process frames without the lock
         let mut responses = Vec::new();
         let mut needs_immediate_flush = false; // Track if any command needs immediate response
-        for frame in frames_to_process {
+        let mut frames_iter = frames_to_process.into_iter();
+        while let Some(frame) = frames_iter.next() {
             // Process each frame and increment command counter
             self.stats.total_commands_processed.fetch_add(1, Ordering::Relaxed);
             
@@ -847,6 +851,15 @@ impl Server {
             #[cfg(ferrous_verif)]
             verif_guard.done(&response);
             responses.push(response);
+            
+            // A blocking command suspended the client: the requests behind it wait
+            if self.is_connection_blocked(id) {
+                let rest: Vec<RespFrame> = frames_iter.by_ref().collect();
+                if !rest.is_empty() {
+                    self.connections.with_connection(id, |conn| conn.deferred_frames = rest);
+                }
+                break;
+            }
         }
         
         // A protocol violation is answered with an error after the replies of the frames before it
